@@ -448,6 +448,17 @@ Definition coef (l : chain) (y : list Z) : Z :=
    neighbour; sign of the documentation of compute_incidence_between_cells: c * (-1)^(number of odd coordinates in
    LOWER directions), c = -1 for the lower end, +1 for the upper end *)
 
+Fixpoint s_inc (hs : shape) (c f : list Z) : option Z :=
+  match hs, c, f with
+  | d :: hs', x :: c', y :: f' =>
+    if x =? y then s_inc hs' c' f'
+    else if list_eqb c' f' && Z.odd x
+         then let sg := if Z.odd (s_dim c') then -1 else 1 in
+              if y =? lo x then Some (- sg) else if y =? hi d x then Some sg else None
+         else None
+  | _, _, _ => None
+  end.
+
 (* all top cells containing c / all vertices of c *)
 Definition top_dir (d : dirn) (x : Z) : list Z :=
   if Z.odd x then [x]
